@@ -11,7 +11,7 @@
    `given` holds the streams the model does not choose: what the source plugins yield and what the loaders of
    the stored data types yield; they are arbitrary chunkings.  Everything else is computed. *)
 From SV Require Import Model.Rows Model.SplitArray Model.Chunk Model.Rechunker Model.Network
-     Proof.RechunkerProof Proof.NetworkProof Proof.NetworkGraphProof.
+     Proof.RechunkerProof Proof.NetworkProof Proof.NetworkGraphProof Proof.NetworkLoopProof.
 
 (* Plugin.iter with one dependency hands do_compute exactly the dependency's chunks one by one *)
 Theorem C01_single_dependency_iter_is_identity : forall dt run cs s e,
@@ -48,6 +48,13 @@ Print Assumptions C01_kind_exhaust_chunking_independent.
 Theorem C01_kind_merge_is_callwise : forall a1 a2 b, pair_comp equal_len (h_merge2 a1 a2 b).
 Proof. exact pair_h_merge2. Qed.
 Print Assumptions C01_kind_merge_is_callwise.
+
+(* LoopPlugin over two data kinds with fully-contained selection is a call-wise computation for every aligned
+   sequence of tight calls: no premise on the calls beyond alignment (zero-length rows at chunk ENDs are excluded by
+   tightness -- finding F1 is exactly the failure of this statement without it) *)
+Theorem C01_kind_loop_is_callwise : forall a b, pair_comp (fun _ => True) (h_loop a b).
+Proof. exact pair_h_loop. Qed.
+Print Assumptions C01_kind_loop_is_callwise.
 
 (* results_chunking_independent (partial: the kinds local / exhaust / two-dependency call-wise computations, with
    the alignment of Plugin.iter for two dependencies as an explicit hypothesis, to be discharged by C08):
@@ -137,8 +144,3 @@ Definition C01_full_stage_determinism : Prop :=
   eval_graph align given [] g = Ok env ->
   forall sched, terminating sched ->
   forall d reader cs, lookup d env = Some cs -> delivered sched d reader = cs.
-
-(* the loop-plugin kind: LoopPlugin over two kinds with fully-contained selection is a call-wise computation
-   for aligned, tight calls (no premise on the calls beyond alignment) *)
-Definition C01_full_kind_loop_is_callwise : Prop :=
-  forall a b, pair_comp (fun _ => True) (h_loop a b).
